@@ -41,6 +41,15 @@ class Run:
             self.harness = vf.build_harness()
         return self.harness
 
+    def envs_file(self):
+        """the standard environments of the specification (YaeUniverse!StdEnvIn), emitted by TLC for the harness"""
+        if not getattr(self, "_envs", None):
+            self._envs = ""
+            path, _ = self.generate("Gen_Eval", "Gen_Eval.cfg", mode="envs", size=1, name="stdenvs")
+            self.cases -= 1
+            self._envs = path
+        return self._envs
+
     # ------------------------------------------------------------ TLC generator (Mode A + B)
     def generate(self, module, cfg, mode="", size=0, name=None, timeout=1800, workers=None, idbase=0, heap="6g"):
         """runs a Gen_* root: invariants = Mode A on the specification, states = cases.
@@ -104,7 +113,7 @@ class Run:
         if jobs:
             args += ["-j", str(jobs)]
         t0 = time.time()
-        _, err = vf.harness(self.hbin(race), args)
+        _, err = vf.harness(self.hbin(race), args, env=dict(VERIF_ENVS=self.envs_file()))
         n = vf.count_lines(out)
         vf.log("replayed %s: %d observations (%.1fs) %s" % (family, n, time.time() - t0, err.strip().splitlines()[-1] if err.strip() else ""))
         return out
@@ -178,8 +187,7 @@ class Run:
         for rec in iter_ndjson(obs):
             v = verdicts[rec["id"]]
             if v.get("skip"):
-                self.skipped += 1
-                continue
+                self.skipped += 1      # outside the exact domain: value conjuncts not judged, the rest are
             if "harness_panic" in rec.get("obs", {}):
                 raise vf.Infra("harness defect on case %s: %s\n%s" % (rec["id"], rec["obs"]["harness_panic"], rec["obs"].get("stack", "")))
             if key is not None:
